@@ -26,11 +26,16 @@
       date-time needs both, or the timestamp; a zoned date-time needs the offset (%z %:z %+), or
       the timestamp when the value's offset is zero;
     * the value is one the format can express: whole-minute offset; a leap second only on second
-      59 with %S printed; without %S (and without %s) the second and fraction are zero; at most
-      one sub-second field; the local date inside the supported range.
+      59 with %S printed; the second and fraction are zero unless the reader learns the second
+      (%S printed, or the timestamp is the only source of the date-time: next to a full date and
+      time a missing %S reads as zero); at most one sub-second field; the local date inside the
+      supported range; every year group that occurs is determinate, also next to a timestamp.
     Expected result (DESIGN.md 5.0): the value with its fraction truncated to the digits the format
     prints (none: whole seconds), leap-second flag kept.  It is computed from the case's value.
 
+    fp.irt / fp.iparse carry an explicit item list instead of a format string; each public item is
+    mapped to its documented tokens ([toks_of_item]: Fixed::RFC3339 = the expansion of %+,
+    Fixed::RFC2822 = `%a, %-d %b %Y %H:%M:%S %z` for years 0..9999), the rest is the same claim.
     fp.rtx (case / surplus white-space perturbation, applied by the op to name items and
     white-space items only) has the same expectation as fp.rt.  fp.rem appends a tail to the text:
     claimed when the tail starts with a printable ASCII character other than a digit and '.', the
